@@ -151,3 +151,31 @@ def forkladder(depth, va, mask):
         c.io_nodes.append(o)
         exp.append((~va if k & 1 else va) & mask)
     return c, exp
+
+
+def openchain(n_cells, va, mask, tap_every=0):
+    """input a runs through n_cells two-input cells whose second pin is unconnected (reads constant 0): xor2 (= buf), xnor2 (= inv), or2 (= buf),
+    nor2 (= inv). Every cell holds three references to the constant-0 slot. With tap_every > 0 every tap_every-th signal is observed too.
+    -> (circuit, [expected bit vector per output], [depth of each output])"""
+    c = Circuit('openchain')
+    a = Node(c, 'a', 'input'); c.io_nodes.append(a)
+    prev, val = a, va & mask
+    kinds = ['xor2', 'xnor2', 'or2', 'xnor2', 'nor2', 'xor2', 'nor2']
+    taps = []
+    for k in range(n_cells):
+        kind = kinds[k % len(kinds)]
+        g = Node(c, f'g{k}', kind)
+        Line(c, prev, g)
+        if kind in ('xnor2', 'nor2'): val = ~val & mask
+        prev = g
+        if tap_every and k % tap_every == tap_every - 1 and k < n_cells - 1:
+            f = Node(c, f'n{k}'); Line(c, g, f)
+            taps.append((f, val, k + 1))
+            prev = f
+    outs, exp, depth = [], [], []
+    for k, (f, v, d) in enumerate(taps):
+        o = Node(c, f't{k}', 'output'); c.io_nodes.append(o); Line(c, f, o)
+        exp.append(v); depth.append(d)
+    o = Node(c, 'o', 'output'); c.io_nodes.append(o); Line(c, prev, o)
+    exp.append(val); depth.append(n_cells)
+    return c, exp, depth
